@@ -166,6 +166,7 @@ def execute(program, share_tables=True, only=None, env=None, dup_identity=False,
     for i in range(start, len(program)):
         if only is not None and i not in only:
             env.heap.append(Skipped())
+            apply_alias_fx(env, program[i])
             continue
         v = exec_op(env, program[i], dup_identity=dup_identity)
         if isinstance(v, _IdentityDup):
@@ -174,6 +175,17 @@ def execute(program, share_tables=True, only=None, env=None, dup_identity=False,
         if on_op is not None:
             on_op(env, i)
     return env
+
+
+def apply_alias_fx(env: Env, op):
+    """The ONE permitted interference (C01): an op recorded as having given an automatic alias to an un-aliased
+    by-reference argument.  When that op itself is not part of what is being rebuilt, its recorded effect on the
+    argument (alias None -> the recorded string, nothing else) is replayed into the model at the op's log position."""
+    for d, alias in op.get("alias_fx", ()):
+        if 0 <= d < len(env.heap):
+            v = env.heap[d]
+            if is_object_slot(v) and getattr(v, "__dict__", {}).get("alias", 0) is None:
+                v.alias = alias
 
 
 def slot_obs(env: Env, i: int, **kw) -> dict:
@@ -198,7 +210,8 @@ def rebuild(program, target: int, share_tables=True, extra=None) -> Env:
     if extra:
         for e in extra:
             need |= set(cone(program, e))
-    return execute(program[: max(need) + 1], share_tables=share_tables, only=need, dup_identity=True)
+    upto = len(program) if any("alias_fx" in op for op in program) else max(need) + 1
+    return execute(program[:upto], share_tables=share_tables, only=need, dup_identity=True)
 
 
 def reference_obs(program, target: int, share_tables=True, extra=None, **kw) -> dict:
